@@ -67,10 +67,16 @@ func StructValidations(info *types.Info, body ast.Node) []*StructValidation {
 			return true
 		}
 		sv := &StructValidation{Call: call, Target: RootVar(info, call.Args[first-1])}
+		fieldArgs := call.Args[first:]
 		if call.Ellipsis != token.NoPos {
-			sv.Opaque = true
+			// a spread slice: a literal, or a local defined once by a literal, is its elements
+			if els, ok := spreadElements(info, body, fieldArgs[len(fieldArgs)-1]); ok {
+				fieldArgs = append(append([]ast.Expr{}, fieldArgs[:len(fieldArgs)-1]...), els...)
+			} else {
+				sv.Opaque = true
+			}
 		}
-		for _, a := range call.Args[first:] {
+		for _, a := range fieldArgs {
 			fc, ok := ast.Unparen(a).(*ast.CallExpr)
 			if !ok {
 				sv.Opaque = true
@@ -86,12 +92,92 @@ func StructValidations(info *types.Info, body ast.Node) []*StructValidation {
 				sv.Opaque = true
 				continue
 			}
-			sv.Fields = append(sv.Fields, FieldRule{Field: fld, Base: RootVar(info, fc.Args[0]), Rules: fc.Args[1:], Call: fc})
+			rules := fc.Args[1:]
+			if fc.Ellipsis != token.NoPos && len(rules) > 0 {
+				if els, ok := spreadElements(info, body, rules[len(rules)-1]); ok {
+					rules = append(append([]ast.Expr{}, rules[:len(rules)-1]...), els...)
+				}
+			}
+			// a rule held in a local that is defined exactly once stands for its definition
+			var ld *LocalDefs
+			copied := false
+			for i, r := range rules {
+				v := VarOf(info, r)
+				if v == nil || v.IsField() || (v.Pkg() != nil && v.Parent() == v.Pkg().Scope()) {
+					continue
+				}
+				if ld == nil {
+					ld = NewLocalDefs(info, body)
+				}
+				if ds := ld.All(v); len(ds) == 1 && ds[0].RHS != nil && ds[0].N == 1 {
+					if !copied {
+						rules, copied = append([]ast.Expr{}, rules...), true
+					}
+					rules[i] = ds[0].RHS
+				}
+			}
+			sv.Fields = append(sv.Fields, FieldRule{Field: fld, Base: RootVar(info, fc.Args[0]), Rules: rules, Call: fc})
 		}
 		out = append(out, sv)
 		return true
 	})
 	return out
+}
+
+// spreadElements: the elements of a slice given as `x...`: x is a slice literal,
+// or a local variable of the body with exactly one definition, a slice literal,
+// that is not modified otherwise (no append, no element assignment).
+func spreadElements(info *types.Info, body ast.Node, e ast.Expr) ([]ast.Expr, bool) {
+	e = ast.Unparen(e)
+	if v := VarOf(info, e); v != nil && !v.IsField() {
+		ld := NewLocalDefs(info, body)
+		ds := ld.All(v)
+		var lit ast.Expr
+		for _, d := range ds {
+			if d.RHS == nil {
+				if _, isDecl := d.Stmt.(*ast.ValueSpec); isDecl {
+					continue // var x T
+				}
+				return nil, false
+			}
+			if lit != nil || d.N != 1 {
+				return nil, false
+			}
+			lit = d.RHS
+		}
+		if lit == nil {
+			return nil, false
+		}
+		// no element assignment
+		bad := false
+		ast.Inspect(body, func(n ast.Node) bool {
+			if as, ok := n.(*ast.AssignStmt); ok {
+				for _, l := range as.Lhs {
+					if ix, ok := ast.Unparen(l).(*ast.IndexExpr); ok && VarOf(info, ix.X) == v {
+						bad = true
+					}
+				}
+			}
+			return true
+		})
+		if bad {
+			return nil, false
+		}
+		e = ast.Unparen(lit)
+	}
+	cl, ok := e.(*ast.CompositeLit)
+	if !ok {
+		return nil, false
+	}
+	if _, isSlice := info.TypeOf(cl).Underlying().(*types.Slice); !isSlice {
+		return nil, false
+	}
+	for _, el := range cl.Elts {
+		if _, isKV := el.(*ast.KeyValueExpr); isKV {
+			return nil, false
+		}
+	}
+	return cl.Elts, true
 }
 
 // IsValidationVar reports whether e denotes the package-level variable
